@@ -38,7 +38,23 @@ claim('C16',
       'accumulator rule. Equality of results as values is not computed.',
       'Trusted: python ast, E1 type inference, E3c ownership summaries (k-limited paths).')
 
+claim('C13',
+      'exception-escape analysis over the call graph from Builder.build (implicit raisers and explicit built-in '
+      'raises as obligations; discharge by path facts, class invariants, constructor-site correlation, call-site '
+      'evaluation of validator preconditions, enumerated exhaustive branch chains, reasoned entries re-verified per '
+      'run) + termination-shape rules + structural rules on the result list and the rejection guards, over python ast',
+      'Static rule set: the set of exception classes that may leave Builder.build contains only the library\'s own '
+      'error types - every subscript, Optional dereference, attribute access on a (union) type, pop/next/index, '
+      'unpacking, call arity, possibly-unbound name and every explicit raise of a built-in exception type in the '
+      'reachable set is discharged; no handler swallows; build has one unconditional return of header, source and '
+      'all six support files; recursion is on structurally smaller values and while loops shrink; each listed class '
+      'of invalid input has a dominating raise of a library error. Decides "never an internal error / never partial '
+      '/ termination shape" for all well-typed inputs; does not decide that valid inputs always succeed.',
+      'Trusted: python ast, E1 type inference from the repository annotations, the closed table of implicit '
+      'raisers, stdlib calls outside that table do not raise for well-typed arguments. Assumption A1 (Dezyne '
+      'identifiers are non-empty) is stated in the evidence. RecursionError from input depth is out of reach.')
+
 _pending = 'check not built yet in this round (design in DESIGN.md section 3); will be claimed when its rules run clean'
-for _p in ['C01', 'C02', 'C03', 'C04', 'C05', 'C06', 'C07', 'C09', 'C10', 'C11', 'C13', 'C14', 'C15',
+for _p in ['C01', 'C02', 'C03', 'C04', 'C05', 'C06', 'C07', 'C09', 'C10', 'C11', 'C14', 'C15',
            'C17', 'C18', 'C19', 'C20']:
     na(_p, _pending)
